@@ -75,13 +75,11 @@ impl<'a> StringLexer<'a> {
                     }
                     b'\\' => Some(b'\\'),
 
-                    _ => {
-                        self.back()?;
-                        let _start = self.get_offset();
-                        let mut char_code: u16 = 0;
+                    b'0'..=b'7' => {
+                        let mut char_code: u16 = (c - b'0') as u16;
 
-                        // A character code must follow. 1-3 numbers.
-                        for _ in 0..3 {
+                        // A character code: 1-3 octal digits.
+                        for _ in 0..2 {
                             let c = self.peek_byte()?;
                             if (b'0'..=b'7').contains(&c) {
                                 self.next_byte()?;
@@ -92,6 +90,8 @@ impl<'a> StringLexer<'a> {
                         }
                         Some(char_code as u8)
                     }
+                    // not an escape sequence: the backslash is ignored
+                    c => Some(c),
                 }
                 )
             },
@@ -118,14 +118,6 @@ impl<'a> StringLexer<'a> {
         if self.pos < self.buf.len() {
             self.pos += 1;
             Ok(self.buf[self.pos-1])
-        } else {
-            Err(PdfError::EOF)
-        }
-    }
-    fn back(&mut self) -> Result<()> {
-        if self.pos > 0 {
-            self.pos -= 1;
-            Ok(())
         } else {
             Err(PdfError::EOF)
         }
